@@ -15,6 +15,7 @@ import (
 // service goroutine calls, interleaves its bytes with a frame the writer is in the middle of.
 func c16SingleFrameWriter(c *Ctx) {
 	const rule = "single-frame-writer"
+	c.Explanation += " conn2.send is called only before the session's goroutines exist and from the one goroutine that drains the out channel."
 	p := c.P
 	send := p.Method(agentRel, "conn2", "send")
 	serv := p.Method(agentRel, "agentListener", "serv")
